@@ -58,14 +58,16 @@ Proof. pose proof (cos_sin_est_period x v k); pose proof (cos_sin_est_period_neg
 Print Assumptions C12_circular_two_pi_invariant.
 
 (* a single angle away from the multiples of pi/2 is returned as atan2 (sin x) (cos x) *)
-Theorem C12_circular_single_generic x v : v <> 0 -> (1 - cos x * cos x) <> 0 -> (1 - sin x * sin x) <> 0 ->
+Theorem C12_circular_single_generic x v : v <> 0 -> sin x * sin x <> 0 -> cos x * cos x <> 0 ->
   mr_single_pc (OO:=ROps) x v -> mr_single (OO:=ROps) x v = [Ratan2 (sin x) (cos x)].
 Proof. exact (tie_mr_single x v). Qed.
 
-(* FULL STATEMENT (false): "the circular mean points in the direction of the weighted
+(* Over the reals only (in binary64 no angle other than 0 has sin x = 0 exactly, and since fix 200c664 the
+   variances are sin^2 x var, cos^2 x var, so the plain oracle mr_single_pi_plain passes):
+   FULL STATEMENT (false at the exact real pi): "the circular mean points in the direction of the weighted
    vector sum wherever the inputs lie on the circle, including multiples of pi/2".
    REFUTED on the model the code is tied to on every path: the single angle pi with
-   variance 1 has cos-variance (1 - cos^2 pi) * 1 = 0, so its cosine component is
+   variance 1 has cos-variance sin^2 pi * 1 = 0, so its cosine component is
    dropped by the zero-variance convention, both sums vanish and the mean is
    reported as 0 although the input points in direction pi (cos = -1). *)
 Theorem C12_circular_mean_at_pi_refuted :
